@@ -354,6 +354,10 @@ def gen_damages(rng, subj, tier):
         for lo, hi, nm in subj["regions"]:
             lens.add(lo)
             lens.add(min(n - 1, lo + 1))
+            if hi - lo > 4:		# inside and at the very end of every section (sections read lazily included)
+                lens.add((lo + hi) // 2)
+                lens.add(hi - 1)
+                lens.add(lo + rng.range(2, hi - lo - 2))
         for _ in range(40):
             lens.add(rng.below(n))
         for lo, hi in subj.get("dense", []):	# a seeded sample of cuts inside a region of interest
